@@ -230,7 +230,16 @@ Proof. exact unique_parse. Qed.
 
 (* T9. The same at the level of the model's route matching (path or host of a route built by
    StaticOrDynamic::new_with_markers), for ASCII templates and requests.  HYPOTHESIS engine_tok_hyp: on an anchored
-   rendered token list the engine answers like the token semantics. *)
+   rendered token list the engine answers like the token semantics.
+   CAUTION (found when the hypothesis was examined for the executable engine, properties/RxMarkers.v): as stated,
+   engine_tok_hyp quantifies over ALL token lists, ill-formed group bodies included, and in that form it is FALSE for the
+   executable engine whatever the oracle and the folding (rx_engine_tok_hyp_refuted) - and for any real regex engine for
+   the same reason (the rendering a(b)|(c) of the tokens a, (b)|(c) is a top-level alternation): the statement below
+   is kept as it was, but for such engines its premise cannot be met.  The meaningful form is
+   RxMarkers.C10_route_matches_iff_rx: the same conclusion for the executable engine with NO engine hypothesis, the
+   hypothesis being replaced by the executable condition that the marker expressions are balanced (tok_ok), and
+   C10_route_matches_iff_rx_simple where, for a concrete family of marker expressions and the separator '/', no
+   hypothesis about engine, oracle or folding remains. *)
 Theorem C10_route_matches_iff_partial : forall (E : engine) (G : bool -> list chr -> list chr -> nat -> nat -> bool) (fold : chr -> chr)
     (markers : list (str * str)) (sepb : N -> bool) (val : str -> str) (ic : bool) (ps : list piece) (n : str),
   engine_tok_hyp E G fold ic -> G_sep_free_hyp G sepb -> fold_sep_hyp fold sepb ic ->
